@@ -506,11 +506,15 @@ class Check(BaseCheck):
                         if quick and len(fs) > 2:
                             rot = 1 + (mag.numerator + mag.denominator + int(s)) % (len(fs) - 1)
                             fs = [fs[0], fs[rot]]
+                        nondyadic = bool(mag.denominator & (mag.denominator - 1))
                         for form, obj in fs:
                             self.check_one(r, cfg, ctx, spec, mode, ovf, 'round', None, form, obj, x, optext)
                             if first or not quick:
                                 if spec.kind != 'real':
-                                    for n in ns:
+                                    # quick: a non-dyadic operand visits one rotating position only
+                                    nsel = ns if not (quick and nondyadic) else \
+                                        [ns[(mag.numerator + mag.denominator) % len(ns)]]
+                                    for n in nsel:
                                         self.check_one(r, cfg, ctx, spec, mode, ovf, 'round_at', n, form, obj, x, optext)
                                     self.check_one(r, cfg, ctx, spec, mode, ovf, 'round_integer', -1, form, obj, x,
                                                    optext)
